@@ -9,7 +9,7 @@ META = {
     "level": "model_checking",
     "engine": "E2 lazy-fork symbolic execution of the real Circuit.remove_unloaded over a symbolic acyclic circuit (presence, type, output flag and every forward edge are z3 variables); per path z3 proves removed set = {dead and deletable}, survivors untouched, returned list = removed set, second call returns nothing",
     "hashseeds": {"quick": [0], "thorough": [0]},
-    "shards": {"quick": 16, "thorough": 8},
+    "shards": {"quick": 16, "thorough": 16},
     "exhaustive_within_bound": True,
     "bounds": {
         "quick": "every lint-legal acyclic circuit over N=4 names (input, and, sink, x: names that are also type strings or plausible temporary names), created in topological and in reverse topological order: all presence/type/output/edge combinations; inputs=False with all 14 types (incl. blackbox pins), inputs=True with blackbox-free types; repeated application (second call)",
